@@ -122,6 +122,31 @@ def z_measurement_gate(
         return tableau, outcome, x_p
 
 
+def x_measurement_gate(
+    tableau, qubit_position, measurement_determinism="probabilistic"
+):
+    """
+    Apply an X-basis measurement on a given qubit in a stabilizer state.
+
+    :param tableau: Tableau of the state before gate action
+    :type tableau: CliffordTableau
+    :param qubit_position: index of the qubit that the gate acts on
+    :type qubit_position: int
+    :param measurement_determinism: if the outcome is probabilistic from the simulation, we have the option to
+        select a specific outcome
+    :type measurement_determinism: str or int
+    :return: the resulting state after the X measurement, the classical outcome, and the same third value as
+        z_measurement_gate (zero if the outcome is deterministic)
+    :rtype: CliffordTableau, int, int
+    """
+    tableau = hadamard_gate(tableau, qubit_position)
+    tableau, outcome, x_p = z_measurement_gate(
+        tableau, qubit_position, measurement_determinism
+    )
+    tableau = hadamard_gate(tableau, qubit_position)
+    return tableau, outcome, x_p
+
+
 def measure_x(tableau, qubit_position, measurement_determinism="probabilistic"):
     """
     Returns the outcome 0 or 1 if one measures the given qubit in the X basis.
